@@ -126,3 +126,18 @@ CLAIMS["C16"] = {
     "note": "Trusted: local_comp_graph implements local complementation; networkx GraphMatcher.",
     "technique": "static analysis: provenance-closure dataflow (greatest fixpoint), return-bound check, installed-stub API existence",
 }
+
+CLAIMS["C14"] = {
+    "text": "Decides structural necessary conditions of the export/import round trip: JSON writer and reader tables are "
+            "mutually inverse and name every accepted operation class; every openQASM gate name an exporting class writes "
+            "maps back to that class in the importer's table, multi-line idiom keys exist, wrapper-member names are single "
+            "letters (the importer splits by letter); a wrapper's composite gate body is written in application order while "
+            "its name keeps list order; property setters used by from_json keep every __init__-derived register field in "
+            "sync; no set is iterated on the export path. Per operation class and per table row, exhaustively. Known "
+            "findings (parameterised gates; 'sdg' inside wrappers) are listed in known_findings.json. Does not decide "
+            "parser correctness on arbitrary text or equality of compiled states.",
+    "ref": "DESIGN.md §5.14",
+    "note": "Trusted: openQASM 2.0 semantics 'gate body statements apply first to last'; the parser's regexes.",
+    "technique": "static analysis: writer/reader table inversion, exporter-name extraction from the *_info functions, "
+                 "direction calculus on accumulation loops, setter/derived-field coherence over the class hierarchy",
+}
